@@ -93,6 +93,11 @@ Definition debyte (c : cfg) (p : pop) : pop :=
   | _ => p
   end.
 
+Definition nent_of_N (n : N) : nent :=
+  {| ne_name := n mod 10; ne_model := (n / 10) mod 10; ne_os := (n / 100) mod 10; ne_manuf := (n / 1000) mod 10 |}.
+Definition nent_of_dec (s : string) : option nent :=
+  match N_of_dec s with Some n => Some (nent_of_N n) | None => None end.
+
 Definition op_of_tok (s : string) : option pop :=
   match commas s with
   | ["R"; src; cls; i; am; dh; now; _variant] =>   (* the variant selects the concrete frame the harness builds *)
@@ -103,12 +108,12 @@ Definition op_of_tok (s : string) : option pop :=
       end
   | ["N"] => Some (POp Notify)
   | ["U"; m; i; nm; now] =>
-      match mac_of_tok m, ip_of_tok i, N_of_dec nm, Z_of_dec now with
+      match mac_of_tok m, ip_of_tok i, nent_of_dec nm, Z_of_dec now with
       | Some m, Some i, Some nm, Some now => Some (POp (DHCPv4Update m i nm now))
       | _, _, _, _ => None
       end
   | ["O"; m; i; nm] =>
-      match mac_of_tok m, ip_of_tok i, N_of_dec nm with
+      match mac_of_tok m, ip_of_tok i, nent_of_dec nm with
       | Some m, Some i, Some nm => Some (POp (SetOffer m i nm))
       | _, _, _ => None
       end
@@ -116,7 +121,7 @@ Definition op_of_tok (s : string) : option pop :=
   | ["L"; m] => option_map (fun m => POp (Release m)) (mac_of_tok m)
   | ["P"; now] => option_map PPurge (Z_of_dec now)
   | ["M"; kd; i; nm] =>
-      match kind_of_tok kd, ip_of_tok i, N_of_dec nm with
+      match kind_of_tok kd, ip_of_tok i, nent_of_dec nm with
       | Some kd, Some i, Some nm => Some (POp (NameUpdate kd i nm))
       | _, _, _ => None
       end
@@ -148,9 +153,12 @@ Definition resolve (s : state) (p : pop) : op :=
 (* ---------- printing ---------- *)
 Definition b01 (b : bool) : string := if b then "1" else "0".
 
+(* one NameEntry as a decimal: Name + 10*Model + 100*OS + 1000*Manufacturer (attribute values 0..9, 0 = "") *)
+Definition show_nent (e : nent) : string :=
+  dec_of_N (ne_name e + 10 * ne_model e + 100 * ne_os e + 1000 * ne_manuf e).
 Definition show_names (n : names) : string :=
-  dec_of_N (n_dhcp n) ++ "." ++ dec_of_N (n_mdns n) ++ "." ++ dec_of_N (n_ssdp n) ++ "." ++
-  dec_of_N (n_llmnr n) ++ "." ++ dec_of_N (n_nbns n).
+  show_nent (n_dhcp n) ++ "." ++ show_nent (n_mdns n) ++ "." ++ show_nent (n_ssdp n) ++ "." ++
+  show_nent (n_llmnr n) ++ "." ++ show_nent (n_nbns n).
 
 Definition show_host (e : ip * host) : string :=
   (* key / Host.Addr.IP / MACEntry.MAC / Host.Addr.MAC (one value in the model: the two Go slices must stay equal) *)
